@@ -413,6 +413,7 @@ struct SpansWorld {
   FILE* out;
   Arena arena{8192};
   RALiveSpans X, Y, T;
+  bool tjunk = false;                      // T was the target of a refused union (contents unspecified)
   uint32_t inf;
   vj::W w;
   RALiveSpans& obj(const std::string& s) { return s == "X" ? X : s == "Y" ? Y : T; }
@@ -453,11 +454,12 @@ struct SpansWorld {
     }
     else if (k == "union") {
       Error e = T.non_overlapping_union_of(arena, obj(o[1].s()), obj(o[2].s()));
+      tjunk = e != Error::kOk;
       w.kv("r", err_name(e));
     }
     else if (k == "swap") obj(o[1].s()).swap(obj(o[2].s()));
-    else if (k == "reset") obj(o[1].s()).reset();
-    else if (k == "release") obj(o[1].s()).release(arena);
+    else if (k == "reset") { obj(o[1].s()).reset(); if (o[1].s() == "T") tjunk = false; }
+    else if (k == "release") { obj(o[1].s()).release(arena); if (o[1].s() == "T") tjunk = false; }
     else if (k == "width") w.kv("r", (long long)obj(o[1].s()).width());
     else if (k == "isopen") w.kv("r", obj(o[1].s()).is_open()).kv("empty", obj(o[1].s()).is_empty()).kv("size", (long long)obj(o[1].s()).size());
     else { fprintf(stderr, "spans: unknown op %s\n", k.c_str()); exit(3); }
@@ -472,7 +474,6 @@ static void spans_random(FILE* out, unsigned nexec, unsigned steps, vj::Rng& r) 
     SpansWorld W(out, inf);
     // per object: next legal position (protocol of build_liveness: positions never decrease)
     unsigned n = 4 + unsigned(r.below(steps));
-    bool tjunk = false;
     for (unsigned i = 0; i < n; i++) {
       unsigned c = unsigned(r.below(100));
       std::string on = r.chance(1, 2) ? "X" : "Y";
@@ -494,12 +495,12 @@ static void spans_random(FILE* out, unsigned nexec, unsigned steps, vj::Rng& r) 
         W.op(mkop({"close", on}, {e}));
       }
       else if (c < 72) W.op(mkop({"isect", "X", "Y"}, {}));
-      else if (c < 84) { W.op(mkop({"union", "X", "Y"}, {})); tjunk = false; }
-      else if (c < 88) { if (!tjunk && !W.T.is_open() && !W.T.is_empty()) { bool wasopen = o.is_open(); (void)wasopen; W.op(mkop({"swap", on, "T"}, {})); } }
+      else if (c < 84) W.op(mkop({"union", "X", "Y"}, {}));
+      else if (c < 88) { if (!W.tjunk && !W.T.is_empty()) W.op(mkop({"swap", on, "T"}, {})); }
       else if (c < 92) { if (!o.is_open()) W.op(mkop({"width", on}, {})); }
       else if (c < 96) W.op(mkop({"isopen", on}, {}));
       else if (c < 98) W.op(mkop({"reset", on}, {}));
-      else W.op(mkop({"isect", on, "T"}, {}));
+      else if (!W.tjunk) W.op(mkop({"isect", on, "T"}, {}));
     }
     W.op(mkop({"isect", "X", "Y"}, {}));
     W.op(mkop({"union", "X", "Y"}, {}));
@@ -598,7 +599,7 @@ struct TiedWorld {
     else if (k == "outdone") regs[size_t(o[1].i())]->tied_reg()->mark_out_done();
     else if (k == "cdata") {   // static helpers: round trip of the consecutive payload
       RATiedFlags f = RATiedReg::consecutive_data_to_flags(uint32_t(o[1].i()));
-      w.kv("r", (long long)RATiedReg::consecutive_data_from_flags(f));
+      w.kv("cd", (long long)RATiedReg::consecutive_data_from_flags(f));
       bits(w, "fl", uint32_t(f));
     }
     else if (k == "aggr") b->add_aggregated_flags(RATiedFlags(uint32_t(o[1].i())));
@@ -683,7 +684,7 @@ struct BlocksWorld {
                    b->has_terminator(), b->has_consecutive(), b->has_jump_table(), b->has_predecessors(), b->has_successors() };
       for (bool x : q) w.val(x);
       w.endArr();
-      w.kv("cons", b->consecutive() ? bidx(b->consecutive()) : -1);
+      w.kv("cons", (b->has_successors() && b->consecutive()) ? bidx(b->consecutive()) : -1);   // consecutive() presumes a successor
       w.endObj();
     }
     w.endArr();
